@@ -19,12 +19,12 @@
 #define NS (CS_MAXP * CS_MAXP)
 
 enum { F_TRL, F_UTHROUGH, F_TRLM, F_UREFLECT1, F_UREFLECT2, F_CORR,
-    F_PARTIAL16, F_TRLX, F_RECT, F_CORRV, F_NFAM };
+    F_PARTIAL16, F_TRLX, F_RECT, F_CORRV, F_HUB, F_NFAM };
 static const char *fname[F_NFAM] = { "TRL(analytic)", "unknown-through",
     "TRL+match(LM)", "unknown-reflect-1port", "unknown-reflects-2port",
     "correlated-repeat", "unknown+single-reflect-16term",
     "TRL-with-mismatched-line", "unknown-line-rectangular",
-    "correlated-with-known-vector" };
+    "correlated-with-known-vector", "correlated-with-unknown-hub" };
 
 static const vnacal_type_t types[8] = {
     VNACAL_T8, VNACAL_U8, VNACAL_TE10, VNACAL_UE10,
@@ -35,6 +35,7 @@ static int ntypes_of(int fam)
     switch (fam) {
     case F_TRL: return 4;		/* T8 U8 TE10 UE10 */
     case F_TRLX: return 4;
+    case F_HUB: return 4;
     case F_PARTIAL16: return 2;		/* T16 U16 */
     default: return 8;
     }
@@ -323,6 +324,39 @@ static int build(cs_scenario *sc, int fam, vnacal_type_t type, int net,
 	std_push(sc, CSE_SINGLE, 1, 2, 0, &C);
 	unk[(*nunk)++] = T;
 	unk[(*nunk)++] = C;
+	break;
+    }
+    case F_HUB: {
+	/* connection repeatability with the standard itself unknown: the
+	   reflect and the line are each connected twice; every connection
+	   is a parameter correlated (sigma 0.01) with an unknown "hub" that
+	   stands for the standard and appears in no S matrix.  The measured
+	   equations alone (through 4, match pair 2, reflect pair 2, line 4)
+	   are fewer than error terms plus parameters; the correlation rows
+	   close the gap.  Connections repeat exactly. */
+	int R = par_unknown(sc, Rtrue, 0.01 * I, guess);
+	int L = par_unknown(sc, Ltrue, -0.05 * I * Ltrue, guess);
+	cs_param p; memset(&p, 0, sizeof(p));
+	p.kind = CSP_CORRELATED; p.c0 = Rtrue; p.c1 = 0.01 * I;
+	p.other = R; p.sigma = 0.01;
+	int r1 = add_par(sc, p);
+	int r2 = add_par(sc, p);
+	p.c0 = Ltrue; p.c1 = -0.05 * I * Ltrue; p.other = L;
+	int l1 = add_par(sc, p);
+	int l2 = add_par(sc, p);
+	int mm[4] = { pm, -1, -1, pm };
+	int rr[4] = { r1, -1, -1, r2 };
+	int ll[4] = { -1, l1, l2, -1 };
+	std_push(sc, CSE_THROUGH, 2, 1, 2, NULL);
+	std_push(sc, CSE_DOUBLE, 2, 1, 2, mm);
+	std_push(sc, CSE_DOUBLE, 2, 1, 2, rr);
+	std_push(sc, CSE_LINE, 2, 1, 2, ll);
+	unk[(*nunk)++] = R;
+	unk[(*nunk)++] = L;
+	unk[(*nunk)++] = r1;
+	unk[(*nunk)++] = r2;
+	unk[(*nunk)++] = l1;
+	unk[(*nunk)++] = l2;
 	break;
     }
     case F_PARTIAL16: {
@@ -651,8 +685,13 @@ static void run(int tier, long idx, vf_result *r)
     build(&sc, fam, type, net, nf, guess, li, ri, unk, &nunk);
     {
 	long double margin; int eqs, u;
-	if (!cs_identifiable(&sc, (1u << sc.nstd) - 1u, &margin, &eqs, &u) ||
-		margin < 1e-4L) {
+	/* the hub family is determined only together with the ties of its
+	   correlated parameters */
+	cs_ident_priors = fam == F_HUB;
+	int ident = cs_identifiable(&sc, (1u << sc.nstd) - 1u, &margin, &eqs,
+		&u);
+	cs_ident_priors = 0;
+	if (!ident || margin < 1e-4L) {
 	    vf_outcome(r, "skipped: %s %s not determining (margin %.1Le)",
 		    fname[fam], tname, margin);
 	    goto done;
